@@ -1,13 +1,14 @@
 SPECIFICATION Spec
 CONSTANTS
   Comp = "map"
-  Ops = {"store", "delete", "load", "ensurestore", "swap", "ensuredefault", "get", "ensure", "len", "range", "iterator", "rangestop", "unmarshal", "config"}
+  Ops = {"store", "delete", "load", "ensurestore", "swap", "ensuredefault", "get", "ensure", "len", "range", "iterator", "rangestop", "unmarshal", "config", "gc"}
   V = {1, 2}
   K = {"a", "b"}
   Depth = 3
   MaxCons = 3
   VKinds = {"slice", "bytesbuf", "bufpool"}
   AsIs = {}
+  Prefer = {"pool"}
 INVARIANT Inv
 PROPERTY ActionProps
 CONSTRAINT EmitAll
